@@ -6,4 +6,4 @@ Require Extraction.
 Require Import ExtrOcamlBasic.
 Extraction "../ocaml/gen/ex_c19.ml" init add_key add_key_with add_alias add_alias_repo unload step run
   get_key get_key_issuers containsS get fingerprints klen aliases_of strip unspaced sort_alias
-  containsS_old get_key_old step_old Z.add Z.eqb.
+  containsS_old get_key_old step_old step_old_addkey load_result Z.add Z.eqb.
